@@ -88,7 +88,8 @@ pub fn execute(c: &CCfg, seed: u64) -> W {
     let scripts = vec![stepper.clone(), Script::plain(), stepper];
     let ctx = Ctx::new(ScriptSrc::Table(scripts), 2, seed, c.perturb, false);
     let w = W::new(ctx, vec![StoreCfg { policy: c.policy, cap: c.cap, n_red: c.n_red, n_mw: c.n_mw, name: "rsvc".into() }]);
-    let keep = w.add_direct(0, NOGATE, false, true, false);
+    let notified = std::sync::Arc::new(Counter::new());
+    let keep = w.add_direct_counted(0, true, notified.clone());
     let returned = Counter::new();
     let total = (c.n_prod * c.per_prod) as u64;
     let gate = &w.ctx.gates[0];
@@ -188,19 +189,24 @@ pub fn execute(c: &CCfg, seed: u64) -> W {
         // drain before stop so that the exit marker's own (legitimate, counted) eviction does not
         // blur the survivor set: wait for the reducer to go idle on the expected number of actions
         if c.policy != POL_BLOCK {
-            let expect = if c.variant == 2 { 1 + (c.cap as u64).min(total) } else { 0 };
-            let t0 = std::time::Instant::now();
-            let mut last = (0u64, std::time::Instant::now());
-            loop {
-                let n = crate::fam_a::count_kind(&w, K::REnd, c.n_red - 1);
-                if n != last.0 {
-                    last = (n, std::time::Instant::now());
+            if c.variant == 2 {
+                // every survivor of the burst notifies the sentinel (scripts are plain Dispatch)
+                let expect = 1 + (c.cap as u64).min(total);
+                notified.wait_at_least(expect, 2);
+            } else {
+                let t0 = std::time::Instant::now();
+                let mut last = (0u64, std::time::Instant::now());
+                loop {
+                    let n = notified.get();
+                    if n != last.0 {
+                        last = (n, std::time::Instant::now());
+                    }
+                    let idle_ms = if cfg!(miri) { 200 } else { 3 };
+                    if last.1.elapsed().as_millis() >= idle_ms || t0.elapsed().as_secs() >= 2 * CAP_SCALE {
+                        break;
+                    }
+                    std::thread::yield_now();
                 }
-                let idle_ms = if cfg!(miri) { 0 } else { 3 };
-                if (n >= expect && last.1.elapsed().as_millis() >= idle_ms) || t0.elapsed().as_secs() >= 2 {
-                    break;
-                }
-                std::thread::yield_now();
             }
         }
         w.mark(4, 0);
@@ -359,7 +365,13 @@ pub fn c06(h: &Hist, w: &W, s: u8, v: &mut Verdicts) {
     let mut discards = 0u64;
     if let (Some(b), Some(e)) = (m2, m3) {
         let all_inside = burst.iter().all(|(_, d)| d.inv > b && d.ret < e);
-        if all_inside && n > 0 {
+        // the exit marker goes through the store's own policy: if stop() was invoked before the
+        // survivors had been taken, its (legitimate, counted) eviction blurs the survivor set
+        let drained = sh.taken.iter().all(|a| sh.acts[a].first < close_inv);
+        if all_inside && n > 0 && !drained {
+            v.count("c06.gated_bursts_not_drained_before_stop", 1);
+        }
+        if all_inside && n > 0 && drained {
             // exact expectations by interval reasoning (exact for a single producer)
             for (i, (a, d)) in burst.iter().enumerate() {
                 let after_ret = burst.iter().filter(|(_, x)| x.inv > d.ret).count();
